@@ -9,6 +9,7 @@
   the unwrap path reads inside the received packet for every datagram (55a791e).
 -/
 import Nice.Spec.Relay
+import Nice.Props.C16Send
 set_option maxRecDepth 8000
 namespace Nice.Props.C16
 open Nice.Sock Nice.Turn Nice.Relay
